@@ -428,7 +428,10 @@ def exec_sseq(lm, core, t):
 
 
 def exec_stale(lm, core, t):
-    """c18stale <observation> <K> <L> <M> <symbols> <tail>: a view exported before calculate(), read after it"""
+    """c18stale <observation> <K> <L> <M> <symbols> <tail>: a view exported before calculate(), read after it.
+    The row storage must never move under an exported view: either the view still shows the sequence
+    (`same`: no look-ahead row had to be added) or the reuse is refused with BufferError while the view is
+    alive (and works again once it is released; a copy taken meanwhile is not blocked)."""
     K, L, M = int(t[2]), int(t[3]), int(t[4])
     syms = [int(x) for x in t[5:5 + L]]
     tail = t[5 + L:]
@@ -439,6 +442,7 @@ def exec_stale(lm, core, t):
     snapshot = before.tolist()
     pssm = [[f32_bits(0.0)] * K for _ in range(M)]
     g = guarded(lambda: mk_scoring(lm, alpha, pssm).calculate(seq))
+    err = None
     if g[0] != "ok":
         obs = g[0]
     else:
@@ -446,9 +450,28 @@ def exec_stale(lm, core, t):
         after = before.tolist()
         del junk
         obs = "same" if after == snapshot else "differs"
-    before.release()
+    if obs == "BufferError":
+        # refused while exported: the view is intact, a copy is not blocked, scan() is refused like
+        # calculate(), and after release() the object is usable again and scores like a fresh one
+        if before.tolist() != snapshot:
+            err = "stale-view: the view changed although calculate() was refused"
+        c = guarded(lambda: len(mk_scoring(lm, alpha, pssm).calculate(seq.copy())))
+        if c[0] != "ok":
+            err = err or f"calculate() on a copy taken while a view is exported raised {c[0]}"
+        if alpha == "dna":
+            sc = guarded(lambda: list(lm.scan(mk_scoring(lm, alpha, pssm), seq)))
+            if sc[0] != "BufferError":
+                err = err or f"scan() while a view is exported: {sc[0]} (calculate() raised BufferError)"
+        before.release()
+        again = guarded(lambda: [f32_bits(x) for x in mk_scoring(lm, alpha, pssm).calculate(seq)])
+        fresh = guarded(lambda: [f32_bits(x) for x in mk_scoring(lm, alpha, pssm).calculate(mk_striped(lm, alpha, syms))])
+        if again[0] != "ok" or again != fresh:
+            err = err or f"calculate() after the view was released: {again[0]} (a fresh sequence gives {fresh[0]})"
+        if memoryview(seq).tolist() != snapshot:
+            err = err or "stale-view: a new view after the reuse does not show the sequence"
+    else:
+        before.release()
     line = " ".join(["c18stale", obs] + t[2:])
-    err = None
     if obs == "differs":
         err = (f"stale-view: a memoryview of a striped sequence (L={L}) exported before calculate() with a motif of {M} rows "
                "shows foreign memory after it (the row storage was reallocated under the exported pointer)")
@@ -706,32 +729,15 @@ def copy_stream(cfg, core):
 
 
 def stale_stream(cfg, out):
-    """The dangling-view finding (a view exported BEFORE the object is reused).  Reading freed memory
-    is undefined behaviour, so the cases are part of the stream only once the finding is recorded in
-    known_findings.json (id C18-stale-view; the orchestrator then prints KNOWN-FINDING).  Otherwise the
-    stand-alone script pyharness/stale_view.py is run in a process of its own and what it saw is
-    reported in the evidence (`excluded/stale-view/...`)."""
-    import json, os, subprocess, sys
-    root = os.path.dirname(os.path.dirname(os.path.abspath(__file__)))
-    try:
-        kf = json.load(open(os.path.join(root, "known_findings.json")))
-        recorded = any(f.get("id") == "C18-stale-view" for f in kf.get("findings", []))
-    except Exception:
-        recorded = False
-    if recorded:
-        rng = common.Rng(cfg.seed ^ 0x5157)
-        cases = []
-        for L, M in [(1000, 300), (8000, 4000), (64, 2), (2000, 1), (500, 33)]:
-            cases.append(f"c18stale ? 5 {L} {M} {join(rand_syms(rng, 'dna', L))} 0 0")
-        return cases
-    try:
-        p = subprocess.run([sys.executable, "-B", os.path.join(root, "pyharness", "stale_view.py")],
-                           stdout=subprocess.PIPE, stderr=subprocess.DEVNULL, text=True, timeout=120)
-        word = (p.stdout.split() or [f"exit{p.returncode}"])[0]
-    except Exception as e:  # noqa: BLE001
-        word = "not-run-" + type(e).__name__
-    out.stat("excluded/stale-view/" + word)
-    return []
+    """Views exported BEFORE the object is reused (the dangling-view defect, repaired in /repo 34d1e9e:
+    known_findings.json `fixed`): the reuse is refused while the view is alive, or leaves the storage where
+    it is.  Should the defect return, the `differs` observation reads freed memory — that IS the violation
+    being reported."""
+    rng = common.Rng(cfg.seed ^ 0x5157)
+    cases = []
+    for L, M in [(1000, 300), (8000, 4000), (64, 2), (2000, 1), (500, 33), (rng.range(1, 3000), rng.range(1, 600)), (rng.range(1, 3000), rng.range(1, 40))]:
+        cases.append(f"c18stale ? 5 {L} {M} {join(rand_syms(rng, 'dna', L))} 0 0")
+    return cases
 
 
 def run(cfg, lm):
